@@ -2,6 +2,7 @@ package c02
 
 import (
 	"fmt"
+	"reflect"
 	"sort"
 	"strings"
 	"sync"
@@ -25,9 +26,11 @@ type mon struct {
 
 	bound    map[string]map[string]bind // client -> kind -> binding ("" for v4, "na"/"pd" for v6)
 	offered  map[string]map[string]bind
-	declined map[string]string // value -> decliner
-	oblig    map[string]string // value -> "released" / "expired": must become obtainable again
-	taint    map[string]bool   // values on which a violation was already reported in this history
+	bIdx     map[string]map[string]bool // value -> clients with that value in bound (index for find; large pools)
+	oIdx     map[string]map[string]bool // value -> clients with that value in offered
+	declined map[string]string          // value -> decliner
+	oblig    map[string]string          // value -> "released" / "expired": must become obtainable again
+	taint    map[string]bool            // values on which a violation was already reported in this history
 	pending  []string
 
 	hist     []hent
@@ -47,6 +50,7 @@ func newMon(proto, cfg string, offerTTL time.Duration, classify func(string) str
 	return &mon{
 		proto: proto, cfg: cfg, offerTTL: offerTTL, classify: classify,
 		bound: map[string]map[string]bind{}, offered: map[string]map[string]bind{},
+		bIdx: map[string]map[string]bool{}, oIdx: map[string]map[string]bool{},
 		declined: map[string]string{}, oblig: map[string]string{}, taint: map[string]bool{},
 	}
 }
@@ -240,14 +244,51 @@ func (m *mon) set(t map[string]map[string]bind, c, kind string, b bind) {
 	if t[c] == nil {
 		t[c] = map[string]bind{}
 	}
+	old, had := t[c][kind]
 	t[c][kind] = b
+	if had && old.v != b.v {
+		m.unindex(t, c, old.v)
+	}
+	ix := m.idxOf(t)
+	if ix[b.v] == nil {
+		ix[b.v] = map[string]bool{}
+	}
+	ix[b.v][c] = true
 }
 
 func (m *mon) del(t map[string]map[string]bind, c, kind string) {
 	if t[c] != nil {
+		old, had := t[c][kind]
 		delete(t[c], kind)
+		if had {
+			m.unindex(t, c, old.v)
+		}
 		if len(t[c]) == 0 {
 			delete(t, c)
+		}
+	}
+}
+
+// idxOf returns the value index of table t (bound or offered); set and del are the only writers of both.
+func (m *mon) idxOf(t map[string]map[string]bind) map[string]map[string]bool {
+	if reflect.ValueOf(t).Pointer() == reflect.ValueOf(m.bound).Pointer() {
+		return m.bIdx
+	}
+	return m.oIdx
+}
+
+// unindex: c's entry with value v was removed from t (unless another kind of c still carries v).
+func (m *mon) unindex(t map[string]map[string]bind, c, v string) {
+	for _, b := range t[c] {
+		if b.v == v {
+			return
+		}
+	}
+	ix := m.idxOf(t)
+	if s := ix[v]; s != nil {
+		delete(s, c)
+		if len(s) == 0 {
+			delete(ix, v)
 		}
 	}
 }
@@ -264,11 +305,11 @@ func (m *mon) offeree(v, c string, now time.Time) string {
 
 func (m *mon) find(t map[string]map[string]bind, v, c string, now time.Time) string {
 	best := ""
-	for d, ks := range t {
+	for d := range m.idxOf(t)[v] {
 		if d == c {
 			continue
 		}
-		for _, b := range ks {
+		for _, b := range t[d] {
 			if b.v == v && now.Before(b.exp) && (best == "" || d < best) {
 				best = d
 			}
